@@ -320,6 +320,10 @@ class Job:
                 r["status"] = "known"
                 r["finding"] = finding
 
+    def feasible(self, conds, timeout=10):
+        """is this leaf reachable at all under the extra constraints? (filter, not a vacuity verdict)"""
+        return checked(self._solver(list(conds), timeout), timeout) != z3.unsat
+
     def twin_sat(self, what, conds, timeout=20):
         """vacuity twin: the assumptions/path must be satisfiable (an `assert False` there is violated)"""
         s = self._solver(list(conds), timeout)
